@@ -18,14 +18,27 @@ Proof. exact (sort_spec_permutation dinfer natsort_less). Qed.
 Print Assumptions C09_sorted_output_is_permutation.
 
 (* records with identical key texts stay together in input order, key-less records last in input order
-   (by the shape of [sort_output]), no group head strictly smaller than an earlier one under the flag chain *)
+   (by the shape of [sort_output]), no group head strictly smaller than an earlier one under the flag chain,
+   and -- the sort being stable -- groups whose heads compare equal are in first-appearance order *)
 Theorem C09_sort_spec_unfolded : forall ks inp out,
   sort_spec dinfer natsort_less ks inp out <->
   exists gs, Permutation gs (dkeys (sort_keyf ks) inp)
     /\ out = flat_map (fun g => group_of (sort_keyf ks) g inp) gs ++ filter (fun r => negb (has_key (sort_keyf ks) r)) inp
-    /\ ForallOrdPairs (fun g h => chain_cmp dinfer natsort_less (map snd ks) (head_vals ks inp h) (head_vals ks inp g) <? 0 = false) gs.
+    /\ ForallOrdPairs (fun g h => chain_cmp dinfer natsort_less (map snd ks) (head_vals ks inp h) (head_vals ks inp g) <? 0 = false) gs
+    /\ ForallOrdPairs (fun g h => chain_cmp dinfer natsort_less (map snd ks) (head_vals ks inp g) (head_vals ks inp h) = 0 ->
+                                  (index_of g (dkeys (sort_keyf ks) inp) < index_of h (dkeys (sort_keyf ks) inp))%nat) gs.
 Proof. exact (fun ks inp out => conj (fun H => H) (fun H => H)). Qed.
 Print Assumptions C09_sort_spec_unfolded.
+
+(* "The sort is stable": groups that compare equal under the whole flag chain come out in the order in which they were
+   first encountered (the code after the repair 4e85fa106: sort.SliceStable) *)
+Theorem C09_sort_is_stable : forall ks inp out,
+  sort_spec dinfer natsort_less ks inp out ->
+  exists gs, out = sort_output ks inp gs
+    /\ ForallOrdPairs (fun g h => chain_cmp dinfer natsort_less (map snd ks) (head_vals ks inp g) (head_vals ks inp h) = 0 ->
+                                  (index_of g (dkeys (sort_keyf ks) inp) < index_of h (dkeys (sort_keyf ks) inp))%nat) gs.
+Proof. exact (sort_spec_stable dinfer natsort_less). Qed.
+Print Assumptions C09_sort_is_stable.
 
 Theorem C09_same_key_text_keeps_input_order : forall ks inp out,
   sort_spec dinfer natsort_less ks inp out ->
@@ -113,6 +126,8 @@ Example C09_nonvacuous :
   check_sort dinfer natsort_less [(B "x", Fnf)] ex_in ex_out = true
   /\ check_sort dinfer natsort_less [(B "x", Fnf)] ex_in (rev ex_out) = false
   /\ check_sort dinfer natsort_less [(B "x", Fnr)] ex_in ex_out = false
+  /\ check_sort dinfer natsort_less [(B "x", Fnf)] [[(B "x", B "1.0")]; [(B "x", B "1")]] [[(B "x", B "1.0")]; [(B "x", B "1")]] = true
+  /\ check_sort dinfer natsort_less [(B "x", Fnf)] [[(B "x", B "1.0")]; [(B "x", B "1")]] [[(B "x", B "1")]; [(B "x", B "1.0")]] = false
   /\ num_dom dinfer (fun n => -100 <= n <= 100) (B "10") /\ num_dom dinfer (fun n => -100 <= n <= 100) (B "abc")
   /\ flag_cmp dinfer natsort_less Fc (B "Pan") (B "pAN") = 0 /\ flag_cmp dinfer natsort_less Ft (B "a2") (B "a10") = -1.
 Proof. vm_compute. repeat split; try reflexivity; discriminate. Qed.
